@@ -273,7 +273,7 @@ func (fr *Frame) goStmt(st *State, in *ssa.Go) {
 	// goroutine bodies are verified separately; record the spawn
 	name := "?"
 	if f := in.Call.StaticCallee(); f != nil {
-		name = f.String()
+		name = ex.w.funcKey(f)
 	}
 	ex.spawned = append(ex.spawned, name)
 	n := ex.get(st, "SpawnN", SInt)
